@@ -71,7 +71,11 @@ func runC14(c *Ctx) {
 	c.purityObligations("input-unmodified", pure)
 	L.Floor("input-unmodified", 18, "statistics listed in the property")
 	// (e) result lists own their buffers
-	n := c.checkBufferReuse("published-buffer-reuse", c.P.SrcFuncs("align"))
+	bscope := c.P.SrcFuncs("align")
+	if c.Thorough() {
+		bscope = c.P.SrcFuncs() // every package, cmd included
+	}
+	n := c.checkBufferReuse("published-buffer-reuse", bscope)
 	L.Note("published-buffer-reuse: %d publication sites examined in package align", n)
 	L.Floor("published-buffer-reuse", 20, "functions of package align that store slices into structs/containers")
 	L.Assumes("alignment shape invariant: every row reached through the receiver has the cached length")
